@@ -534,6 +534,11 @@ func c07randomCase(c *Ctx, id string, rng *rand.Rand, bs []*model.Batch, modes [
 		}
 		ts = append(ts, tgt{o, mm})
 	}
+	// a twin of the first segment: same ids, same stored data, same dictionaries, but
+	// the hits of every term differ from the term's second document on. The detail
+	// streams of a term start at the same file offset in both segments; objects that
+	// served a term of one are then recycled for the same term of the other
+	guard(c.R, id+" twin", func() { c07twin(c, id, rng, bs[0], ts[0].seg, ts[0].m, modes[0]) })
 	pls := make([]segment.PostingsList, 3)
 	its := make([]segment.PostingsIterator, 3)
 	reqs := c.N(300, 600)
@@ -686,4 +691,92 @@ func shortS(s string) string {
 		return fmt.Sprintf("%q…", s[:20])
 	}
 	return fmt.Sprintf("%q", s)
+}
+
+func c07twin(c *Ctx, id string, rng *rand.Rand, b *model.Batch, segA segment.Segment, mA *model.Seg, mode uint32) {
+	tb := b.Clone()
+	seen := map[string]bool{}
+	for di := range tb.Docs {
+		for fi := range tb.Docs[di].Fields {
+			f := &tb.Docs[di].Fields[fi]
+			for ti := range f.Toks {
+				key := f.Name + "\x00" + f.Toks[ti].Term
+				if !seen[key] {
+					seen[key] = true // the first document of the term stays as it is
+					continue
+				}
+				if f.Toks[ti].Freq > 0 {
+					f.Toks[ti].Freq += 2
+					if len(f.Toks[ti].Locs) > 0 {
+						l := f.Toks[ti].Locs[len(f.Toks[ti].Locs)-1]
+						l.Pos, l.Start, l.End = l.Pos+1, l.End+1, l.End+3
+						l2 := l
+						l2.Pos, l2.Start, l2.End = l.Pos+1, l.End+1, l.End+2
+						f.Toks[ti].Locs = append(f.Toks[ti].Locs, l, l2)
+					}
+				}
+			}
+		}
+		tb.Docs[di].Composite = nil
+	}
+	for di := range b.Docs {
+		if len(b.Docs[di].Composite) > 0 {
+			return // composite fields repeat the tokens of their sources: no twin for such batches
+		}
+	}
+	zx.SetChunkMode(mode)
+	segB, _, err := zx.Build(tb)
+	if err != nil {
+		c.R.Fail("build-err", "%s: twin: %v", id, err)
+		return
+	}
+	defer segB.Close()
+	mB := model.Build(tb)
+	type side struct {
+		seg segment.Segment
+		m   *model.Seg
+	}
+	sides := []side{{segA, mA}, {segB, mB}}
+	var pl segment.PostingsList
+	var it segment.PostingsIterator
+	n := 0
+	for _, f := range mA.Fields {
+		for _, term := range mA.Terms(f) {
+			if len(mA.Post[f][term]) < 2 || n >= 40 {
+				continue
+			}
+			n++
+			for turn := 0; turn < 3; turn++ {
+				sd := sides[turn%2]
+				hits := sd.m.Post[f][term]
+				dict, err := sd.seg.Dictionary(f)
+				if err != nil {
+					c.R.Fail("dict-err", "%s: twin: %v", id, err)
+					return
+				}
+				pl, err = dict.PostingsList([]byte(term), nil, pl)
+				if err != nil || pl == nil {
+					c.R.Fail("pl-err", "%s: twin: %v", id, err)
+					return
+				}
+				it = pl.Iterator(true, true, true, it)
+				where := fmt.Sprintf("%s twin side %d field %q term %s (objects recycled from the other side)", id, turn%2, f, shortS(term))
+				for k := range hits {
+					po, err := it.Next()
+					if err != nil || po == nil {
+						c.R.Fail("iter-missing", "%s: hit %d: %v, %v", where, k, po, err)
+						return
+					}
+					if !oracle.CompareHit(c.R, where, po, &hits[k], true, true) {
+						return
+					}
+				}
+				if po, err := it.Next(); err != nil || po != nil {
+					c.R.Fail("iter-extra", "%s: after the last hit: %v, %v", where, po, err)
+					return
+				}
+				c.R.Inc("c07_twin_requests", 1)
+			}
+		}
+	}
 }
